@@ -278,5 +278,6 @@ let () = section register_c09
 
 (* ---- C05 *)
 let register_c05 reg =
+  reg "window_ok" (function [a; b; c; d] -> show_bool (window_ok (zv a) (zv b) (zv c) (zv d)) | _ -> failwith "arity");
   reg "c05_ok" (function (a :: b :: c :: d :: e :: _) -> show_bool (c05_ok (zv a) (zv b) (zv c) (zv d) (zv e)) | _ -> failwith "arity")
 let () = section register_c05
